@@ -1123,7 +1123,40 @@ class Exprs:
 
     # ---------------------------------------------------------------- comprehensions
     def ev_ListComp(self, node: ast.ListComp, fr: Frame) -> V:
+        if len(node.generators) == 1 and not node.generators[0].ifs and not fr.in_spec:
+            g = node.generators[0]
+            src = self.ev(g.iter, fr)
+            if isinstance(src, VOpt):
+                src = self.unwrap(src, node, fr, "iterated list")
+            if isinstance(src, VList) and not src.is_concrete():
+                return self.map_symbolic(node.elt, g, src, node, fr)
         return VList(self.comprehend(node.elt, node.generators, fr))
+
+    def map_symbolic(self, elt: ast.expr, g: ast.comprehension, src: VList, node: Any, fr: Frame) -> V:
+        """``[f(x) for x in xs]`` over a symbolic xs: the element expression is checked once for an
+        arbitrary index (its obligations hold for every element); the result is a symbolic list of the same
+        length whose i-th element is the value of the expression at xs[i] (evaluated on demand, assuming the
+        callees' postconditions)."""
+        k = z3.Int(self.path.fresh_name("$map"))
+        n = src.length()
+        child = Frame(fr.module, None, {}, fr, fr.extra_modules)
+        child.depth = fr.depth
+        if self.path._check(n > 0) != z3.unsat:
+            self.path.temps.append(n > 0)
+            try:
+                self.path.add_fact(z3.And(k >= 0, k < n))  # guarded by "the list is not empty"
+                self.assign_target(g.target, self.list_get(src, k, node, fr), child, node)
+                self.ev(elt, child)  # obligations for an arbitrary element
+            finally:
+                self.path.temps.pop()
+
+        def get(idx: Any) -> V:
+            c2 = Frame(fr.module, None, {}, fr, fr.extra_modules)
+            c2.in_spec = True
+            c2.depth = fr.depth
+            self.assign_target(g.target, self.list_get(src, idx, node, c2), c2, node)
+            return self.ev(elt, c2)
+        return VList([], base_len=n, base_get=get)
 
     def ev_GeneratorExp(self, node: ast.GeneratorExp, fr: Frame) -> V:
         try:
